@@ -339,6 +339,7 @@ Theorem connect_plain w h p s srest g :
   r_now (s_greeting s) = [RReply g] -> r_close_after (s_greeting s) = false -> code g <> 421 -> code g <> 120 ->
   exists w', step w (AConnect h p None) = (OReturn (RvReplies [g]), w') /\
     insync w' (s_reactions s) /\ w_script w' = srest /\ w_ssl w' = false /\ w_cfg w' = w_cfg w /\
+    w_cur6 w' = s_ip6 s /\ w_tls_clean w' = s_tls_close_clean s /\
     wire_events (skipn (length (w_trace w)) (w_trace w')) = [WReply g] /\
     obs_events (skipn (length (w_trace w)) (w_trace w')) = told (w_obs w) (OConnected h p) ++ told (w_obs w) (OReply g).
 Proof.
@@ -356,11 +357,11 @@ Proof.
   destruct (is_negative g).
   - rewrite run_ret. eexists. split; [reflexivity|].
     split. { unfold insync, ready. cbn. auto. }
-    split; [reflexivity|]. split; [reflexivity|]. split; [reflexivity|].
+    split; [reflexivity|]. split; [reflexivity|]. split; [reflexivity|]. split; [reflexivity|]. split; [reflexivity|].
     trace_facts. auto.
   - rewrite run_getcfg. flat. rewrite run_ret. eexists. split; [reflexivity|].
     split. { unfold insync, ready. cbn. auto. }
-    split; [reflexivity|]. split; [reflexivity|]. split; [reflexivity|].
+    split; [reflexivity|]. split; [reflexivity|]. split; [reflexivity|]. split; [reflexivity|]. split; [reflexivity|].
     trace_facts. auto.
 Qed.
 
@@ -419,6 +420,7 @@ Theorem connect_tls w h p s srest g r1 rs a :
   s_reactions s = r1 :: rs -> simple_reaction r1 a -> is_negative a = false -> r_tls_ok r1 = true ->
   exists w', step w (AConnect h p None) = (OReturn (RvReplies [g; a]), w') /\
     insync w' rs /\ w_ssl w' = true /\ w_tls_up w' = true /\ w_sess_id w' = w_next_sess w /\
+    w_script w' = srest /\ w_cfg w' = w_cfg w /\ w_cur6 w' = s_ip6 s /\ w_tls_clean w' = s_tls_close_clean s /\ w_data w' = w_data w /\
     skipn (length (w_trace w)) (w_trace w') =
       [ECtl (CConnect h p true)] ++ block (w_obs w) (OConnected h p) ++ [ERecv (w_ord w) g] ++ block (w_obs w) (OReply g) ++
       block (w_obs w) (ORequest AUTH_TLS) ++ [EWire false (S (w_ord w)) AUTH_TLS] ++ [ERecv (S (w_ord w)) a] ++
@@ -442,6 +444,7 @@ Proof.
   eexists. split; [reflexivity|].
   split. { unfold insync, ready. cbn. destruct dp1; auto. }
   split; [reflexivity|]. split; [reflexivity|]. split; [reflexivity|].
+  split; [reflexivity|]. split; [reflexivity|]. split; [reflexivity|]. split; [reflexivity|]. split; [reflexivity|].
   unfold block. cbn. rewrite <- !app_assoc, skipn_app_len. reflexivity.
 Qed.
 
